@@ -1,11 +1,13 @@
 """C08 — TLS transport is a transparent, encrypted byte stream."""
 from __future__ import annotations
 
+import ast
 import asyncio
+import os
 import random
 
 import tlskit as K
-from common import detloop, sx
+from common import detloop, runner, sx
 
 PROPERTY_ID = "C08"
 RUN_MODULE = "Run.C08"
@@ -44,6 +46,80 @@ ASSUMPTIONS = [
     "one writer at a time on the TLS transport (the endpoint layer serialises senders, property C12)",
     "the wrapped transport's send_all delivers all bytes in order; recv_into returns a non-empty prefix of what is in flight",
 ]
+
+# ------------------------------------------------------------------ params(): fail-closed ast translator
+
+def _fail(msg):
+    raise runner.TranslateError(msg)
+
+
+def _find(tree, qualname):
+    node = tree
+    for part in qualname.split("."):
+        nxt = None
+        for ch in ast.iter_child_nodes(node):
+            if isinstance(ch, (ast.FunctionDef, ast.AsyncFunctionDef, ast.ClassDef)) and ch.name == part:
+                nxt = ch
+        if nxt is None:
+            _fail(f"{qualname} not found in tls.py")
+        node = nxt
+    return node
+
+
+def _is_await_readinto(stmt):
+    return (isinstance(stmt, ast.Expr) and isinstance(stmt.value, ast.Await) and isinstance(stmt.value.value, ast.Call)
+            and isinstance(stmt.value.value.func, ast.Attribute) and stmt.value.value.func.attr == "readinto")
+
+
+def params():
+    """Does the WANT_READ branch re-check, once it holds the recv lock, whether another task fed the SSL object in the
+    meantime (meta/fixes/C08_lost_wakeup.diff)?  Recognises exactly the unpatched and the patched shape."""
+    path = os.path.join(runner.REPO, _TLS)
+    try:
+        tree = ast.parse(open(path).read())
+    except SyntaxError as exc:
+        _fail(f"tls.py: {exc}")
+    fn = _find(tree, "AsyncTLSStreamTransport._retry_ssl_method")
+    loops = [s_ for s_ in fn.body if isinstance(s_, ast.While)]
+    if len(loops) != 1:
+        _fail("_retry_ssl_method: expected one while loop")
+    tries = [s_ for s_ in loops[0].body if isinstance(s_, ast.Try)]
+    if len(tries) != 1:
+        _fail("_retry_ssl_method: expected one try statement in the loop")
+    wr = [h for h in tries[0].handlers if "SSLWantReadError" in ast.unparse(h.type)]
+    if len(wr) != 1 or len(wr[0].body) != 1 or not isinstance(wr[0].body[0], ast.Try):
+        _fail("_retry_ssl_method: WANT_READ handler not recognised")
+    inner = wr[0].body[0]
+    recv_blocks = [s_ for s_ in inner.body if isinstance(s_, ast.AsyncWith) and "recv_lock" in ast.unparse(s_.items[0].context_expr)]
+    if len(recv_blocks) != 1:
+        _fail("_retry_ssl_method: expected exactly one `async with` on the recv lock in the WANT_READ branch")
+    body = recv_blocks[0].body
+    reader = _find(tree, "_IncomingDataReader.readinto")
+    counts = [n for n in ast.walk(reader) if isinstance(n, ast.AugAssign) and isinstance(n.target, ast.Attribute)
+              and n.target.attr == "feed_count"]
+    if len(body) == 1 and _is_await_readinto(body[0]):
+        if counts or "feed_count" in ast.unparse(fn):
+            _fail("feed_count is maintained but the recv-lock block does not use it")
+        flag = "false"
+    elif (len(body) == 1 and isinstance(body[0], ast.If) and not body[0].orelse and len(body[0].body) == 1
+          and _is_await_readinto(body[0].body[0])):
+        test = ast.unparse(body[0].test)
+        if test != "self.__incoming_reader.feed_count == feed_count":
+            _fail(f"recv-lock guard not recognised: {test}")
+        snaps = [s_ for s_ in inner.body if isinstance(s_, ast.Assign) and ast.unparse(s_) == "feed_count = self.__incoming_reader.feed_count"]
+        if len(snaps) != 1 or inner.body[0] is not snaps[0]:
+            _fail("the feed_count snapshot must be the first statement of the WANT_READ branch (no await before it)")
+        # readinto: the counter is incremented exactly once, unconditionally, after the await and before the BIO write
+        top = reader.body
+        if not (len(counts) == 1 and counts[0] in top and ast.unparse(counts[0]) == "self.feed_count += 1"
+                and top.index(counts[0]) == 1 and "await" in ast.unparse(top[0])
+                and not any("await" in ast.unparse(s_) for s_ in top[1:])):
+            _fail("_IncomingDataReader.readinto: feed_count update not recognised")
+        flag = "true"
+    else:
+        _fail(f"recv-lock block not recognised: {ast.unparse(recv_blocks[0])!r}")
+    return f"Definition recheck_after_recv_lock : bool := {flag}.\n"
+
 
 MARKER = b"<<PLAINTEXT-MARKER-C08>>"
 OP_SEND, OP_RECV = 3, 1
@@ -167,8 +243,19 @@ def run_duplex(cfg):
     except detloop.DeadlockError:
         info["deadlock"] = True
     events = rec.events[: info.get("events_end", len(rec.events))]
-    labels, obs = [], []
-    nops = 0
+    labels, obs, results = _events_to_trace(events, info["results"])
+    tr = info.get("tr")
+    out = [obs, results, info.get("wpending", 0), 0, 0]
+    # what the property says about this run (asserted on every real run; a violation breaks the correspondence)
+    problems = check_run(cfg, rec, peer, info, events)
+    if problems:
+        out.append([b"assertion failed on the real run: " + problems[0].encode()])
+    info.update(problems=problems, rec=rec, peer=peer, events=events, overlap=bool(tr and (tr.overlap or tr.recv_overlap)))
+    return dict(labels=labels, out=out, info=info)
+
+
+def _events_to_trace(events, results):
+    labels, obs, nops = [], [], 0
     for ev in events:
         k = ev[0]
         if k == "op":
@@ -193,18 +280,88 @@ def run_duplex(cfg):
             obs.append([ev[1], 3, 0])
         elif k == "weof":
             obs.append([ev[1], 4, 0])
-        # "close" (aclose_forcefully after a failed handshake) belongs to wrap()/aclose(), modelled in C09's op layer
         elif k == "cancel":
-            labels.append([1, ev[1], 2, 4, 0])
-    results = [info["results"].get(i, [9, 9]) for i in range(nops)]
-    tr = info.get("tr")
-    out = [obs, results, info.get("wpending", 0), 0, 0]
-    # what the property says about this run (asserted on every real run; a violation breaks the correspondence)
-    problems = check_run(cfg, rec, peer, info, events)
-    if problems:
-        out.append([b"assertion failed on the real run: " + problems[0].encode()])
-    info.update(problems=problems, rec=rec, peer=peer, events=events, overlap=bool(tr and (tr.overlap or tr.recv_overlap)))
-    return dict(labels=labels, out=out, info=info)
+            labels.append([1, ev[1], 2, 5, 0])
+    return labels, obs, [results.get(i, [9, 9]) for i in range(nops)]
+
+
+def current_flag():
+    return int("true" in params())
+
+
+def run_two_readers(cfg):
+    """Two concurrent recv() on one transport; the peer's two records arrive in ONE recv_into of the first reader.
+    The second reader must get its record without any further byte from the network (the connection stays open and
+    silent).  Known finding lost-wakeup-after-recv-lock on the unpatched tree."""
+    from easynetwork.lowlevel.api_async.transports.tls import AsyncTLSStreamTransport
+
+    rec = K.Recorder()
+    ver, client = cfg["ver"], bool(cfg["client"])
+    if client:
+        peer = K.Peer(K.server_ctx(ver), True, [])
+        ctx = K.RecContext(K.client_ctx(ver), rec)
+    else:
+        peer = K.Peer(K.client_ctx(ver), False, [])
+        ctx = K.RecContext(K.server_ctx(ver), rec)
+    info = dict(results={}, lens={}, pending=0, deadlock=False)
+
+    async def main():
+        rec.name_task(0)
+        tr = K.MemTransport(rec, peer, K.RecBackend(K.new_backend(), rec))
+        tr.peer_silent_eof = False
+        if not client:
+            tr.stream += peer.pump()
+        op = rec.begin_op(K.M_HANDSHAKE, 0, [])
+        with K.patched_ssl_module(rec):
+            t = await AsyncTLSStreamTransport.wrap(tr, ctx, server_side=not client,
+                                                   server_hostname="localhost" if client else None)
+        info["results"][op] = [0, 0]
+
+        async def reader(name):
+            op = rec.begin_op(K.M_READ, 100, [])
+            try:
+                d = await t.recv(100)
+                info["results"][op] = [0, len(d)]
+                info["lens"][name] = len(d)
+            except BaseException as exc:
+                info["results"][op] = [1, _exc_code(exc)]
+                raise
+
+        r1 = asyncio.ensure_future(reader("r1"))
+        r2 = asyncio.ensure_future(reader("r2"))
+        for _ in range(8):
+            await asyncio.sleep(0)
+        peer.obj.write(_plain(5, b"P0"))
+        peer.obj.write(_plain(6, b"P1"))
+        tr.stream += peer.out.read()
+        tr.data_event.set()
+        _done, pending = await asyncio.wait([r1, r2], timeout=100)
+        info["pending"] = len(pending)
+        for p_ in pending:
+            p_.cancel()
+        await asyncio.gather(r1, r2, return_exceptions=True)
+        info["events_end"] = len(rec.events)
+        info["wpending"] = t._write_bio.pending
+        tr.peer_silent_eof = True
+        try:
+            await t.aclose()
+        except BaseException:
+            pass
+
+    try:
+        detloop.run(main())
+    except detloop.DeadlockError:
+        info["deadlock"] = True
+    events = rec.events[: info.get("events_end", len(rec.events))]
+    labels, obs, results = _events_to_trace(events, info["results"])
+    problems = []
+    if info["pending"] or info["deadlock"]:
+        problems.append("lost wakeup after waiting for the recv lock: a recv() stayed blocked for 100 s although its "
+                        "record had already been fed into the incoming BIO by the other reader")
+    elif sorted(info["lens"].values()) != [5, 6]:
+        problems.append("two concurrent recv() did not return the two records")
+    info.update(problems=problems, events=events)
+    return dict(labels=labels, out=[obs, results, info.get("wpending", 0), 0, 0], info=info)
 
 
 def check_run(cfg, rec, peer, info, events):
@@ -248,12 +405,20 @@ def _cfg_sx(cfg):
 
 def _sx_cfg(f):
     f = list(f)
+    if isinstance(f[0], bytes):
+        return dict(kind="two-readers", flag=f[1], ver=f[2], client=f[3])
     return dict(ver=f[0], client=f[1], writes=[w[0] if len(w) == 1 else list(w) for w in f[2]], peer_writes=list(f[3]),
                 frag=f[4], yields=f[5], seed=f[6], recv_size=f[7], into=f[8], fail_send_at=None if f[9] < 0 else f[9],
                 frag_hs=f[10] if len(f) > 10 else 1)
 
 
 def _build(cfg):
+    if cfg.get("kind") == "two-readers":
+        r = run_two_readers(cfg)
+        inp = sx.norm([r["labels"], [b"two-readers", cfg["flag"], cfg["ver"], int(cfg["client"])]])
+        out = sx.norm(r["out"])
+        _MEMO[sx.to_text(inp)] = out
+        return inp, out, r["info"]
     r = run_duplex(cfg)
     inp = sx.norm([r["labels"], _cfg_sx(cfg)])
     out = sx.norm(r["out"])
@@ -265,7 +430,10 @@ def run_impl(inp):
     key = sx.to_text(sx.norm(inp))
     if key in _MEMO:
         return _MEMO[key]
-    inp2, out, _info = _build(_sx_cfg(inp[-1]))
+    cfg = _sx_cfg(inp[-1])
+    if cfg.get("kind") == "two-readers" and cfg["flag"] != current_flag():
+        return [777]            # recorded for the other state of the lost-wakeup fix: not applicable to this tree
+    inp2, out, _info = _build(cfg)
     if sx.norm(inp2[0]) != sx.norm(inp[0]):
         return out + [[b"recorded trace differs from this run"]]
     return out
@@ -372,17 +540,21 @@ def _gen(thorough, rng):
 
 def oracle(inp):
     cfg = _sx_cfg(inp[-1])
-    r = run_duplex(cfg)
+    r = run_two_readers(cfg) if cfg.get("kind") == "two-readers" else run_duplex(cfg)
     problems = r["info"]["problems"]
     return problems[0] if problems else None
 
 
 def signature(inp, failure):
+    if failure.startswith("lost wakeup after waiting for the recv lock"):
+        return "lost-wakeup-after-recv-lock"
     return failure.split(":")[0][:60]
 
 
 def shrink(inp):
     cfg = _sx_cfg(inp[-1])
+    if cfg.get("kind") == "two-readers":
+        return
     if len(cfg["writes"]) > 1:
         for i in range(len(cfg["writes"])):
             c = dict(cfg, writes=cfg["writes"][:i] + cfg["writes"][i + 1:])
